@@ -29,6 +29,35 @@ int main(int argc, char **argv)
     std::string line;
     auto handle = [](const std::string &line)
     {
+        if (line.rfind("RV ", 0) == 0)
+        {   // RV <n> <maxSteps> <maxEmpty> <ratio num> <ratio den> <tape seed> | a-b ...: reduceVertices on the path 0,1,...,n-1 of R^1 with a
+            // table-driven motion validator (accepted pairs a-b) and the simplifier's random numbers read from a tape: u_k = ((seed + 7 k + 3 k k) mod 64) / 64
+            std::istringstream pin(line); std::string c0, tok; int n; unsigned ms, me; long rn, rd; unsigned long tseed; pin >> c0 >> n >> ms >> me >> rn >> rd >> tseed >> tok;
+            std::set<std::pair<long, long>> okp; while (pin >> tok) { auto k = tok.find('-'); okp.insert({std::stol(tok.substr(0, k)), std::stol(tok.substr(k + 1))}); }
+            auto sp = std::make_shared<ob::RealVectorStateSpace>(1); sp->setBounds(-1, n + 1);
+            auto si = std::make_shared<ob::SpaceInformation>(sp);
+            si->setStateValidityChecker([](const ob::State *) { return true; });
+            struct TableMV : public ob::MotionValidator
+            {
+                TableMV(const ob::SpaceInformationPtr &si, std::set<std::pair<long, long>> t) : ob::MotionValidator(si), tab(std::move(t)) {}
+                std::set<std::pair<long, long>> tab;
+                bool checkMotion(const ob::State *a, const ob::State *b) const override
+                { return tab.count({std::lround(a->as<ob::RealVectorStateSpace::StateType>()->values[0]), std::lround(b->as<ob::RealVectorStateSpace::StateType>()->values[0])}) > 0; }
+                bool checkMotion(const ob::State *a, const ob::State *b, std::pair<ob::State *, double> &lv) const override { lv.second = 0; return checkMotion(a, b); }
+            };
+            si->setMotionValidator(std::make_shared<TableMV>(si, okp)); si->setup();
+            og::PathGeometric path(si);
+            for (int i = 0; i < n; ++i) { ob::State *s = sp->allocState(); s->as<ob::RealVectorStateSpace::StateType>()->values[0] = i; path.append(s); sp->freeState(s); }
+            std::vector<double> tape; for (unsigned long k = 0; k < 4096; ++k) tape.push_back((double)((tseed + 7 * k + 3 * k * k) % 64) / 64.0);
+            og::PathSimplifier ps(si);
+            ompl::RNG::verifSetTape(tape.data(), tape.size());
+            bool ret = ps.reduceVertices(path, ms, me, (double)rn / (double)rd);
+            std::size_t used = ompl::RNG::verifTapeUsed();
+            ompl::RNG::verifSetTape(nullptr, 0);
+            std::cout << "rv " << (ret ? 1 : 0) << " |"; for (std::size_t i = 0; i < path.getStateCount(); ++i) std::cout << " " << std::lround(path.getState(i)->as<ob::RealVectorStateSpace::StateType>()->values[0]);
+            std::cout << " | used " << used << std::endl;
+            return;
+        }
         std::istringstream in(line); std::string cmd, spn, envn, mode, routine; unsigned seed; double res;
         if (!(in >> cmd >> spn >> envn >> seed >> res >> mode >> routine) || cmd != "SIMP") return;
         std::vector<double> par; double v; while (in >> v) par.push_back(v);
